@@ -224,6 +224,14 @@ func sweep(p prog, ei, pi int, fullLengths bool) blockResult {
 	flagVals := []int{0x12}
 	if p.cfg >= 0 {
 		addrClasses, portClasses = 5, 5 // (port class 4: the OTHER end's port - a cross-field coincidence)
+		// the tuple filter is exact on the tuple whatever the TCP flags: SYN-ACK, bare RST, RST-ACK, ACK, SYN, none, RST|PSH, all
+		// (for the quick tier's configurations; the other configurations of the thorough tier take SYN-ACK and the bare RST)
+		flagVals = []int{0x12, 0x04}
+		for _, q := range quickCfgs() {
+			if p.cfg%numCfgs() == q {
+				flagVals = []int{0x12, 0x04, 0x14, 0x10, 0x02, 0x00, 0x0c, 0xff}
+			}
+		}
 	}
 	if p.name == "synack" {
 		flagVals = flagVals[:0]
